@@ -1,7 +1,8 @@
 """C10 -- row-level delete removes exactly the rows the predicate selects (DESIGN section 5, C10).
 
 (M) TLC exhausts specs/rowdelete/RowDelete.tla: every predicate of the bounded grammar (comparison,
-    IS [NOT] NULL, [NOT] IN incl. NULL in the list, [NOT] LIKE prefix, AND/OR/NOT, depth <= 2) x every
+    IS [NOT] NULL, [NOT] IN incl. NULL in the list, [NOT] LIKE prefix, constants TRUE / 1=1 / FALSE / 1=0 /
+    NULL = NULL, AND/OR/NOT, depth <= 2) x the request flags {dry_run, confirm}^2 x every
     layout of the row universe over <= 3 files, Kleene evaluation, the delete automaton as the code
     is now (Keep = "is_not_true": affected files = files with a TRUE row, rewrite keeps
     (p) IS NOT TRUE -- fix f4599fa) and checks ImplSafe and the property PropExact.  Negative
@@ -49,7 +50,7 @@ def run(ctx):
         raise InfraError("generator emitted %d dataset lines and %d cases" % (len(ds), len(cases)))
     ds = ds[0]
     if ctx.quick():
-        for a in ("DryRun", "FindAffected", "RewriteCopy", "RewriteRemove"):
+        for a in ("RejectUnconfirmed", "DryRunPlain", "DryRun", "FindAffected", "RewriteCopy", "RewriteRemove"):
             if gen.coverage.get(a, (0, 0))[0] == 0:
                 raise InfraError("vacuous model: action %s never fired" % a)
     if neg.violated != "PropExact":
@@ -76,8 +77,12 @@ def run(ctx):
     # de-duplicate by (layout, truth vector); keep up to `per` syntactically different predicates per key
     rnd = random.Random(ctx.seed)
     groups = {}
+    always = []      # constant predicates (TRUE, 1=1, FALSE, 1=0, NULL = NULL): few, syntactically special-cased by the handler -> all replayed
     for c in cases:
-        groups.setdefault((c["lay"], "".join(c["tv"])), []).append(c)
+        if c["p"]["k"] == "const":
+            always.append(c)
+        else:
+            groups.setdefault((c["lay"], "".join(c["tv"]), c["has_const"]), []).append(c)
     per, cap = (1, 800) if ctx.quick() else (2, 9000)
     chosen = []
     for k in sorted(groups):
@@ -86,6 +91,9 @@ def run(ctx):
         chosen.extend(rnd.sample(g, min(per, len(g))))
     if len(chosen) > cap:
         chosen = rnd.sample(chosen, cap)
+    chosen = always + chosen
+    if not any(c["full_table"] for c in chosen):
+        raise InfraError("no full-table predicate (1=1 / TRUE) among the replayed cases")
     ctx.log("TLC emitted %d cases, %d distinct (layout, truth vector) keys, replaying %d" % (len(cases), len(groups), len(chosen)))
     sp = ctx.path("cases.json")
     json.dump({"dataset": ds, "cases": chosen}, open(sp, "w"))
@@ -107,6 +115,9 @@ def run(ctx):
     ctx.count(evaluations=r["evaluations"], nontrivial_keys=r.get("nontrivial_keys") or [])
     ctx.traces_validated(r["cases"])
     ctx.note("delete_requests", r["requests"])
+    ctx.note("requests_by_flags_and_outcome", r["requests_by_flags_and_outcome"])
+    ctx.note("full_table_predicate_cases", r["full_table_predicate_cases"])
+    ctx.note("constant_predicate_cases", r["constant_predicate_cases"])
     ctx.note("disagreements_checked", r["duckdb_second_opinion_rows"])     # distinct rows evaluated by DuckDB as second opinion
     ctx.note("disagreements_found", 0)
     ctx.note("file_classes_replayed", r["file_classes"])
